@@ -145,6 +145,7 @@ def b_vhdx(rng, size=None, meta_off=None, item_off=None, item_len=8, rt_pad=None
     p = [P(0, ident + 'vhdx'.encode('utf-16-le')), P(192 * KI, rth + b''.join(rt)), P(meta_off, mth + b''.join(mt)),
          P(meta_off + item_off, struct.pack('<Q', size))]
     n = max(meta_off + 32 + 32 * len(mt), meta_off + item_off + 8) + rng.choice([0, 1, 4096])
+    if kw.get('full'): n = max(n, meta_off + 64 * KI + kw['full'])
     return n, p, [8, 32, 192 * KI, 192 * KI + 16, 192 * KI + 16 + 32 * len(rt), 256 * KI, meta_off, meta_off + 32,
                   meta_off + 32 + 32 * len(mt), meta_off + 64 * KI, meta_off + item_off, meta_off + item_off + 8]
 
@@ -239,6 +240,27 @@ def chunkings(rng, n, bounds, big):
     out.append(sz)
     return out
 
+def vhdx_item_sweep(rng, tier):
+    """VHDX size items placed anywhere behind the entry table: inside the first 64 KiB of the metadata region (32+32*count <= off < 65536),
+    at 65536 and beyond; small tables and tables near the 2047-entry limit; several region placements; the 64 KiB metadata area is present
+    completely; cuts between the item and the end of that area"""
+    k = 9 if tier == 'quick' else 300
+    for j in range(k):
+        pad = rng.choice([0, 1, 4, 30, 500, 1500, 2000, 2040, 2045])
+        es = 32 + 32 * (pad + 1)
+        r = rng.random()
+        if r < 0.6 and es < 65536 - 8: off = rng.choice([es, es + 1, es + 8, 65536 - 8, 65536 - 9, rng.randrange(es, 65536 - 8), rng.randrange(es, 65536 - 8)])
+        elif r < 0.75: off = rng.choice([65536 - 7, 65536 - 1])            # straddles the end of the table area
+        else: off = 65536 + rng.choice([0, 0, 1, 8, 511, 4096])
+        mo = rng.choice([256 * KI, 256 * KI + 512, 300 * KI + 7, 1024 * KI])
+        n, p, bounds = b_vhdx(rng, size=rng.choice([1, 12345, 2**40 + 1, 2**64 - 1]), meta_off=mo, item_off=off, mt_pad=pad, rt_pad=rng.choice([0, 2]),
+                              full=rng.choice([0, 1, 8, 5000]))
+        a, b, e = mo + off, mo + off + 8, mo + 64 * KI
+        cuts = [[n], [65536] * (n // 65536 + 1), [mo + es, n], [b, n], [min(b + 1, n), n], [a, 8, n], [rng.randrange(b, max(b + 1, e)), n], [e - 1, 1, n], [e, n],
+                [mo, es, n], [16384] * (n // 16384 + 1)]
+        for sizes in [[n]] + rng.sample(cuts[1:], 2 if tier == 'quick' else 5):
+            yield {'op': 'insp', 'fmt': 'vhdx', 'n': n, 'bg': 'z', 'p': p, 'sizes': sizes, 'k': 'itemsweep'}
+
 def gen_cases(rng, tier):
     per = {'quick': 70, 'thorough': 1500}[tier]
     for fmt in FORMATS:
@@ -251,6 +273,7 @@ def gen_cases(rng, tier):
                 if rng.random() < 0.05: c['late'] = rng.choice(['', '00', '4b444d56'])
                 yield c
     yield from tiny_cases(rng, tier)
+    yield from vhdx_item_sweep(rng, tier)
     # every format on every other format's valid image (detection runs all inspectors on the same bytes)
     for src in FORMATS:
         n, p, bounds = BUILD[src](rng)
@@ -386,27 +409,36 @@ def history_obs(c):
             except Exception: pass
     return insp_obs.observe(fmt, data, c['sizes'], bytes.fromhex(c['late']) if 'late' in c else None, between=between)
 
-def wrapper_verdict(data, sizes, history=None):
+def wrapper_verdict(data, sizes, history=None, empties=(), container=None):
     m = insp_obs.fi()
     import io as _io
+    before = None
     if history is not None:
         w0 = m.InspectWrapper(_io.BytesIO(history))
         while w0.read(4096): pass
         w0.close()
-    w = m.InspectWrapper(_io.BytesIO(data))
-    out = []
-    try:
-        for n in list(sizes) + [max(1, len(data))]:
-            if history is not None and len(out) % 3 == 0:
+        def before(k):
+            if k % 3 == 0:
                 w1 = m.InspectWrapper(_io.BytesIO(history)); w1.read(70000)
-            w.read(n)
-        w.close()
-        f = w.format
-        out.append('%s:%s' % (f, insp_obs.q(lambda: f.virtual_size)))
-        out.append(','.join(sorted(str(x) for x in w.formats)))
-    except Exception as e:
-        out.append('EXN:' + type(e).__name__)
-    return '|'.join(out)
+    return insp_obs.observe_wrapper(data, list(sizes), empties=empties, container=container, before=before)
+
+def with_empty_reads(c):
+    """the case's read sizes with zero-size reads inserted (first, mid-stream, last) and the indices of transient empty reads"""
+    r = random.Random(c['n'] * 1000003 + len(c['sizes']))
+    sizes = [x for x in c['sizes'] if x > 0]
+    out = []; empties = []
+    def zero(): out.append(0)
+    def transient():                      # a read of positive size that the source answers with nothing (the stream goes on)
+        empties.append(len(out)); out.append(r.choice([1, 512, 4096]))
+    zero(); transient()
+    for x in sizes:
+        out.append(x)
+        q = r.random()
+        if q < 0.3: zero()
+        elif q < 0.5: transient()
+    zero(); transient()
+    # the non-empty results are exactly the chunks of `sizes`: only empty reads were added
+    return out, empties
 
 _nozone = set()
 def oracle(c, io):
@@ -427,6 +459,26 @@ def oracle_(c, io):
             _nozone.add(id(c))
             return ('the observation of a FRESH %s inspector depends on what other instances processed in the same process: record %d is %r after other '
                     'instances handled an unrelated image, %r otherwise' % (c['fmt'], i, h.split('|')[i][:120] if i >= 0 else h[-120:], project(c, io).split('|')[i][:120] if i >= 0 else ''))
+    # content semantics: the chunk container (bytes / bytearray / re-used buffer / memoryview) must not matter
+    kind = insp_obs.container_kind(data_of(c), c['sizes'])
+    if kind != 'bytes':
+        o2 = insp_obs.observe(c['fmt'], data_of(c), c['sizes'], bytes.fromhex(c['late']) if 'late' in c else None, container='bytes')
+        if o2 != project(c, io):
+            i = next((k for k, (a, b) in enumerate(zip(o2.split('|'), project(c, io).split('|'))) if a != b), -1)
+            _nozone.add(id(c))
+            return ('the observation depends on the CONTAINER of the chunks: with %s chunks record %d is %r, with bytes chunks %r'
+                    % (kind, i, project(c, io).split('|')[i][:120] if i >= 0 else '', o2.split('|')[i][:120] if i >= 0 else ''))
+    # InspectWrapper: zero-size reads, transient empty reads and the chunk container must not matter; what the reader received stays intact
+    if c.get('check') == 'wrapper' or (hash(repr(c['sizes'])) + c['n']) % 6 == 1:
+        data = data_of(c)
+        plain = [x for x in c['sizes'] if x > 0]
+        a = wrapper_verdict(data, plain, container='bytes')
+        rs, emp = with_empty_reads(c)
+        b = wrapper_verdict(data, rs, empties=emp)
+        if a != b:
+            _nozone.add(id(c))
+            return ('InspectWrapper: reads %r with transient empty reads at %r (%s chunks) give %r; the same bytes read with sizes %r (bytes chunks) give %r'
+                    % (rs[:14], emp, insp_obs.container_kind(data, rs), b, plain[:12], a))
     if c.get('check') == 'history' or (hash(repr(c['sizes'])) + c['n']) % 16 == 5:
         data = data_of(c)
         hist = unrelated_image('qcow2') if (c['n'] % 2) else unrelated_image('vmdk')
